@@ -1,6 +1,7 @@
 package rules
 
 import (
+	"go/token"
 	"go/types"
 	"strings"
 
@@ -155,6 +156,16 @@ func runC17(c *an.Ctx) {
 			}
 		}
 		if header == nil || body == nil {
+			// the same loop written with an index: i < len(e.Members)
+			for e, facts := range an.EdgeFacts(co) {
+				for _, f := range facts {
+					if strings.HasPrefix(f.L, "phi@") && f.Op == "<" && strings.HasPrefix(f.R, "len(") && strings.HasSuffix(f.R, ".Members)") {
+						header, body = e.From, e.To()
+					}
+				}
+			}
+		}
+		if header == nil || body == nil {
 			c.Anchor("R2", "range loop over the event's members in Coalesce")
 		} else {
 			isUpd := func(in ssa.Instruction) bool {
@@ -168,6 +179,27 @@ func runC17(c *an.Ctx) {
 		}
 	}
 	if fl != nil {
+		// what was reported stays as reported: the events a flush sends are built in that flush, from a
+		// map made there; nothing sent is rooted in the coalescer's own fields and no member list is
+		// truncated for reuse (the application may still hold the previous flush's events)
+		c.Rule("R4 every event Flush sends is freshly built in that call (no retained event, no re-sliced member list)")
+		nS := 0
+		an.Instrs(fl, func(in ssa.Instruction) {
+			switch x := in.(type) {
+			case *ssa.Send:
+				if an.Path(x.Chan) != "$1" {
+					return
+				}
+				nS++
+				p := an.Path(x.X)
+				c.Add(strings.Contains(p, "make:map@") && !strings.Contains(p, "$0."), "R4", "Flush:sends-fresh-event", in, "the event sent is taken from a map made in this call (sends "+short(p)+")", "value path of the sent event")
+			case *ssa.Slice:
+				if strings.HasSuffix(an.Path(x.X), ".Members") {
+					c.Add(false, "R4", "Flush:members-resliced", in, "a member list is re-sliced in place ("+short(an.Path(x))+"): an event already delivered shares its backing array", "slice enumeration")
+				}
+			}
+		})
+		c.Floor("R4", "sends in memberEventCoalescer.Flush", nS, 1)
 		rng := "next(range($0.latestEvents))"
 		name, typ := rng+"#1", rng+"#2.Type"
 		var emit []ssa.Instruction // mapupdate lastEvents[name] = type
@@ -197,7 +229,8 @@ func runC17(c *an.Ctx) {
 		neg = append(neg, an.EdgesImplying(fl, an.Cmp{L: typ, Op: "==", R: update})...)
 		for _, a := range appends {
 			// emit ⇒ ¬(seen ∧ same ∧ ¬update)
-			c.Add(an.Guarded(fl, a, neg), "R3", "Flush:emit-only-when-new", a, "a member is reported only if it was never reported, or its kind changed, or the kind is an update", "edge dominance over the three negated atoms")
+			okNew := an.Guarded(fl, a, neg) || an.GuardedAny(fl, a, an.Cmp{L: seen.L, Op: "==", R: "c:false"}, an.Cmp{L: same.L, Op: "!=", R: typ}, an.Cmp{L: typ, Op: "==", R: update})
+			c.Add(okNew, "R3", "Flush:emit-only-when-new", a, "a member is reported only if it was never reported, or its kind changed, or the kind is an update", "edge dominance over the three negated atoms")
 			// every emit records the kind first
 			dom := false
 			for _, e := range emit {
@@ -307,6 +340,16 @@ func runC18(c *an.Ctx) {
 		for _, s := range sends {
 			v := an.Path(s.(*ssa.Send).X)
 			ok := strings.HasPrefix(v, "next(range($0.events))#2.Events[(phi:rangeindex@") && strings.HasSuffix(v, "+c:1)]")
+			if !ok && strings.HasPrefix(v, "next(range($0.events))#2.Events[") {
+				// the same walk with an explicit index: from 0, step 1, while below the slice's length
+				if ld, isLd := an.Strip(s.(*ssa.Send).X).(*ssa.UnOp); isLd {
+					if ia, isIA := ld.X.(*ssa.IndexAddr); isIA {
+						if ph, isPhi := ia.Index.(*ssa.Phi); isPhi && unitStepFromZero(ph) {
+							ok = an.GuardedBy(fl, s, an.Cmp{L: an.Path(ph), Op: "<", R: "len(" + an.Path(ia.X) + ")"})
+						}
+					}
+				}
+			}
 			c.Add(ok, "R2", "Flush:emits-each-in-order", s, "each stored event of each entry is sent in slice order (range over entry.Events): "+v, "value path of the sent element = range element of the entry's slice")
 		}
 		ok, _ := an.MustPass(fl, nil, func(in ssa.Instruction) bool { return isResetOf(in, "events") })
@@ -324,14 +367,22 @@ func runC18(c *an.Ctx) {
 	}
 	if h := sm(c, "R3", "userEventCoalescer", "Handle"); h != nil {
 		user := cv(c, serf, "EventUser")
-		for _, r := range an.Returns(h) {
-			v := an.ResultValues(r)[0]
+		for _, w := range boolWays(h) {
+			r, v := w.ret, w.v
+			has := func(want an.Cmp) bool {
+				for _, f := range w.facts {
+					if f.Implies(want) {
+						return true
+					}
+				}
+				return an.GuardedBy(h, r, want)
+			}
 			switch {
 			case an.IsConstBool(v, false):
-				c.Add(an.GuardedBy(h, r, an.Cmp{L: "invoke:EventType($1)", Op: "!=", R: user}), "R3", "Handle:false-only-for-other-kinds", r, "Handle returns constant false only for events that are not user events", "edge dominance")
+				c.Add(has(an.Cmp{L: "invoke:EventType($1)", Op: "!=", R: user}), "R3", "Handle:false-only-for-other-kinds", r, "Handle returns constant false only for events that are not user events", "edge dominance")
 			default:
 				p := an.Path(v)
-				c.Add(p == ev+".Coalesce" && an.GuardedBy(h, r, an.Cmp{L: "invoke:EventType($1)", Op: "==", R: user}), "R3", "Handle:coalesce-flag", r, "for user events Handle returns the event's Coalesce flag (got "+p+")", "result path + edge dominance")
+				c.Add(p == ev+".Coalesce" && has(an.Cmp{L: "invoke:EventType($1)", Op: "==", R: user}), "R3", "Handle:coalesce-flag", r, "for user events Handle returns the event's Coalesce flag (got "+p+")", "result path + edge dominance")
 			}
 		}
 	}
@@ -379,4 +430,27 @@ func runC18(c *an.Ctx) {
 			}
 		}
 	}
+}
+
+// unitStepFromZero: phi is a loop counter that starts at 0 and is only ever advanced by exactly 1.
+func unitStepFromZero(phi *ssa.Phi) bool {
+	zero, step := false, false
+	for _, e := range phi.Edges {
+		if n, isC := an.ConstInt(e); isC {
+			if n != 0 {
+				return false
+			}
+			zero = true
+			continue
+		}
+		b, isB := e.(*ssa.BinOp)
+		if !isB || b.Op != token.ADD || b.X != ssa.Value(phi) {
+			return false
+		}
+		if n, isC := an.ConstInt(b.Y); !isC || n != 1 {
+			return false
+		}
+		step = true
+	}
+	return zero && step
 }
